@@ -391,6 +391,7 @@ pub fn run(ctx: &mut Ctx, replay: Option<&str>) {
         }
     } else {
         direct_streams(ctx);
+        set_patience(0);
         let n = ctx.tier.pick(300, 8000);
         for i in 0..n {
             let mut r = ctx.rng.fork(i as u64);
@@ -473,6 +474,7 @@ pub fn run(ctx: &mut Ctx, replay: Option<&str>) {
 /// (b) ONE holder built from a presentation serving several narrowing calls in a row (equal numbers of claims, other claims).
 /// Each narrowing result must carry the same disclosures as the same selection made directly on the issued SD-JWT.
 fn direct_streams(ctx: &mut Ctx) {
+    set_patience(240);
     use crate::keys::KeyId;
     let now = crate::imp::now();
     let same = |a: &Option<Vec<String>>, b: &Option<Vec<String>>| match (a, b) {
